@@ -1121,3 +1121,16 @@ Proof.
   - split; [tauto | now left].
   - split; [tauto | right; eauto].
 Qed.
+
+(* once the target has been freed: it never runs again, and nobody is still in the
+   middle of the waker's accesses to it (to_schedule->state = READY; schedule) *)
+Lemma reclaimed_quiet x : Inv x -> reclaims (base x) <> 0 ->
+  stk (base x) tgt = [] /\
+  forall u X, stk (base x) u <> [FStWrite tgt ST_READY; FC X].
+Proof.
+  intros [HG HS] NZ. destruct (g_recl _ HG) as [R|[_ [E _]]]; [contradiction|]. split; auto.
+  intros u X Hs. pose proof (HS u) as H. rewrite Hs in H.
+  assert (A : exists w, mb (gh x) = MBTaken tgt w /\ woken (gh x) = false).
+  { inversion H; subst; eauto. }
+  destruct A as [w [Q W]]. destruct (g_asleep _ HG _ _ Q W) as [X0 HX]. congruence.
+Qed.
